@@ -75,6 +75,12 @@ class BaseElementLocator
   public:
     static constexpr auto reserved_bytes(std::size_t) noexcept { return std::size_t{}; }
 
+    template <class Allocator>
+    void deallocate(std::size_t max_element_count, const Allocator& allocator) noexcept
+    {
+        element_addresses_.deallocate(max_element_count, allocator);
+    }
+
     bool empty(const std::byte*) const noexcept { return element_addresses_.empty(); }
 
     std::size_t memory_size() const noexcept { return element_addresses_.size() * sizeof(std::size_t); }
@@ -201,6 +207,11 @@ class BaseAllFixedSizeElementLocator
     }
 
   public:
+    template <class Allocator>
+    static constexpr void deallocate(std::size_t, const Allocator&) noexcept
+    {
+    }
+
     constexpr bool empty(const std::byte*) const noexcept { return element_count_ == std::size_t{}; }
 
     static constexpr std::size_t memory_size() noexcept { return {}; }
